@@ -65,6 +65,8 @@ class World:
     def state_idx(self, name):
         return [m.index for m in self.state_enum.enum_members if m.name == name][0]
 
+    done_tasks = False      # C06: a task in a slot may already be done (its done-callback, which clears the slot, has not run yet)
+
     def transfer(self, label, *, direction=None, free_slots=False):
         ctx, it = self.ctx, self.it
         d = ctx.fresh_bool(label + '_is_upload') if direction is None else z3.BoolVal(direction == 'UPLOAD')
@@ -83,6 +85,10 @@ class World:
         t.attrs['fail_reason'] = None if ctx.choose(2, label + '-fail_reason') == 0 else 'reason'
         t.attrs['_remotely_queue_task'] = None if free_slots or ctx.choose(2, label + '-rqtask') == 0 else A.TaskVal(it.aio, None, label + '-queue-remotely')
         t.attrs['_transfer_task'] = None if free_slots or ctx.choose(2, label + '-ttask') == 0 else A.TaskVal(it.aio, None, label + '-transfer-task')
+        if self.done_tasks:
+            for slot in ('_remotely_queue_task', '_transfer_task'):
+                if t.attrs[slot] is not None and ctx.choose(2, label + slot + '-done') == 1:
+                    t.attrs[slot].done = True
         return t
 
     # spec predicates over one transfer -----------------------------------------------------------
@@ -115,11 +121,12 @@ def lex_eq(a, b):
 # ---------------------------------------------------------------------------
 # step contract of the selection loop (shared with C06)
 
-def run_selection_step(src_root, ctx: Ctx, prefix: str):
+def run_selection_step(src_root, ctx: Ctx, prefix: str, done_tasks: bool = False):
     """Executes ONE iteration of the `for transfer in self._transfers` loop of _get_queued_transfers for an arbitrary
     transfer and arbitrary accumulators.  Returns what happened."""
     it = mk(src_root, ctx)
     w = World(it, ctx)
+    w.done_tasks = done_tasks
     t = w.transfer('t')
     UU, UQ = SymSet.fresh(ctx, 'uploading_users'), SymSet.fresh(ctx, 'users_with_queued_upload')
     UQ0 = UQ.term
